@@ -639,6 +639,14 @@ func runC13(c *ctx) {
 		for h := 0; h < c.n(4, 12); h++ {
 			var ops []c13op
 			nops := 12 + c.rng.Intn(5)
+			if h == 1 && !be.readOnly {
+				// every blob uploaded once and read back at once: a failed upload may leave the blob in part of a composite
+				// store; a read failing there afterwards (fault pairs below) must fail or be exact, not say "not there"
+				nops = 0
+				for b := range blobs {
+					ops = append(ops, c13op{"receive", b}, c13op{"fetch", b}, c13op{"stat", b})
+				}
+			}
 			if h == 0 && !be.readOnly {
 				// every upload is retried once (a client does that after an error), every removal too
 				nops = 0
@@ -716,6 +724,25 @@ func runC13(c *ctx) {
 				}
 				plans = append(plans, p)
 			}
+			if h == 1 {
+				// pairs: a failing write below, then a failing read below (the first read calls after it)
+				pairs := 0
+				for k1, w1 := range inj.trace {
+					if !strings.Contains(w1, "ReceiveBlob") && !strings.Contains(w1, "Set") {
+						continue
+					}
+					seen := 0
+					for k2 := k1 + 1; k2 < len(inj.trace) && seen < 3; k2++ {
+						if strings.Contains(inj.trace[k2], "Fetch") || strings.Contains(inj.trace[k2], "Get") {
+							seen++
+							if pairs < c.n(40, 400) {
+								plans = append(plans, map[int]bool{k1 + 1: true, k2 + 1: true})
+								pairs++
+							}
+						}
+					}
+				}
+			}
 			for _, plan := range plans {
 				nrun++
 				d := filepath.Join(dir, fmt.Sprintf("run%d", nrun))
@@ -783,7 +810,8 @@ func c13Judge(c *ctx, be c13backend, ops []c13op, outs []c13out, faults []string
 	}
 	if !c13Explain(init, ops, outs, 0) {
 		class := "c13-not-explained"
-		if strings.HasPrefix(be.name, "replica") && strings.Contains(what, ".RemoveBlobs") {
+		// (cond removes through a replica of its two stores - that is how the harness configures "remove" - and inherits it)
+		if (strings.HasPrefix(be.name, "replica") || strings.HasPrefix(be.name, "cond")) && strings.Contains(what, ".RemoveBlobs") {
 			// read every acknowledged removal as "maybe not done everywhere": is that the only thing wrong?
 			relaxed := append([]c13out{}, outs...)
 			for i := range relaxed {
